@@ -387,12 +387,12 @@ fn main() {
 
     let small = args.tier == "miri" || args.tier == "tsan";
     let len2 = if args.is_thorough() { 7 } else { 6 };
-    let len3 = 4;
+    let len3 = if args.is_thorough() { 5 } else { 4 };
     let len1 = 8;
     let n_random = match args.tier.as_str() {
         "miri" => 5,
         "tsan" => 100,
-        _ => args.size(20_000, 600_000),
+        _ => args.size(60_000, 3_000_000),
     };
     let max_len = if args.tier == "miri" { 40 } else { 200 };
 
